@@ -69,6 +69,8 @@ def _base(rng):
         "epochs": rng.choice([1, 1, 2]),
         "scale": 0.25,
         "low_memory": rng.random() < 0.15,
+        "login_fault": rng.random() < 0.12,
+        "rerun": rng.random() < 0.12,
     }
 
 
@@ -79,12 +81,14 @@ def gen_plan(rng, index, tier):
         # fault-free run of each enumerated configuration (virtual crash at every event)
         p.update(ENUM_CONFIGS[index])
         p.update({"mode": "virtual", "fault_at": None, "data": "synthetic", "epochs": 1, "save_last": True,
-                  "delete_chunks": True, "explicit_chunks": True, "tmp_same_fs": False, "wandb_mode": None})
+                  "delete_chunks": True, "explicit_chunks": True, "tmp_same_fs": False, "wandb_mode": None,
+                  "low_memory": False, "login_fault": False, "rerun": False})
     elif index < len(ENUM_CONFIGS) + n_enum:
         k = index - len(ENUM_CONFIGS)
         p.update(ENUM_CONFIGS[k // ENUM_EVENTS])
         p.update({"mode": "crash", "fault_at": k % ENUM_EVENTS, "data": "synthetic", "epochs": 1, "save_last": True,
-                  "delete_chunks": True, "explicit_chunks": True, "tmp_same_fs": False, "wandb_mode": None})
+                  "delete_chunks": True, "explicit_chunks": True, "tmp_same_fs": False, "wandb_mode": None,
+                  "low_memory": False, "login_fault": False, "rerun": False})
     else:
         r = rng.random()
         if r < 0.45:
@@ -101,7 +105,7 @@ def gen_plan(rng, index, tier):
 
 def describe(plan):
     return {k: plan[k] for k in ("model_type", "fw", "use_wandb", "wandb_mode", "save_ckpt", "save_last", "delete_chunks",
-                                 "origin", "explicit_chunks", "tmp_same_fs", "data", "epochs", "mode", "fault_at", "low_memory")}
+                                 "origin", "explicit_chunks", "tmp_same_fs", "data", "epochs", "mode", "fault_at", "low_memory") if k in plan} | {k: plan.get(k) for k in ("login_fault", "rerun")}
 
 
 def shrink(plan):
@@ -138,6 +142,10 @@ def shrink(plan):
         yield mod(delete_chunks=True)
     if plan.get("low_memory"):
         yield mod(low_memory=False)
+    if plan.get("login_fault"):
+        yield mod(login_fault=False)
+    if plan.get("rerun"):
+        yield mod(rerun=False)
     if plan["model_type"] != "centroid":
         yield mod(model_type="centroid")
     if plan.get("fault_at"):
@@ -205,8 +213,8 @@ def execute(plan, choices=None):
                   f"{h['file']} contains the API key ({['raw', 'base64', 'hex'][h['enc']]}) - first seen at [{h['at']}] during phase {h['phase']}; "
                   f"a crash at that point leaves it on disk; plan={describe(plan)}")
                 break
-            fault_fired = res.get("fault_fired")
-            if mode == "virtual" or (mode in ("crash", "disk_error") and not fault_fired):
+            fault_fired = res.get("fault_fired") or res.get("fault_fired_login")
+            if (mode == "virtual" and not fault_fired) or (mode in ("crash", "disk_error") and not fault_fired):
                 # fault-free execution: the artifact oracle applies in full
                 art = res.get("artifacts", {})
                 if res["error"]:
@@ -235,7 +243,7 @@ def execute(plan, choices=None):
         shutil.rmtree(root, ignore_errors=True)
 
     cls = "/".join(str(plan[k]) for k in ("model_type", "fw", "use_wandb", "wandb_mode", "save_ckpt", "save_last",
-                                           "delete_chunks", "origin", "explicit_chunks", "tmp_same_fs", "data", "epochs", "low_memory"))
+                                           "delete_chunks", "origin", "explicit_chunks", "tmp_same_fs", "data", "epochs", "low_memory")) + f"/{plan.get('login_fault')}/{plan.get('rerun')}"
     events = (res or {}).get("events", [])
     faults = {}
     if crashed:
@@ -246,6 +254,10 @@ def execute(plan, choices=None):
         faults["virtual_crash_inspection"] = res.get("inspections", 0)
         if res.get("fault_fired_low_memory"):
             faults["low_memory"] = 1
+        if res.get("fault_fired_login"):
+            faults["wandb_login_error"] = 1
+        if plan.get("rerun"):
+            faults["output_folder_reused"] = 1
     trace = repr((events, [v["sig"] for v in violations], crashed, sorted(survivors)))
     wrote = bool(events) or bool(survivors)
     fa = plan.get("fault_at") if (crashed or (res and res.get("fault_fired"))) else None
